@@ -865,12 +865,84 @@ func c10OutlinesSubset(r *run.Run) {
 		})
 }
 
+// c10ShortNames: TrueType fonts whose names list is shorter than the glyph count (what a post table with
+// too few names reads as): subsetting keeps the names that exist.
+func c10ShortNames(r *run.Run) {
+	r.Explore(explore.Config{Name: "C10.subset-short-names"},
+		"6-glyph glyf fonts (6 component graphs) with a names list of 0..5 names (shorter than the glyph count) x ALL duplicate-free glyph lists starting with glyph 0 of length 1..4: Subset does not panic, glyph i of the subset has the name (possibly none) and the width of the listed glyph, and the subset can be written and read back",
+		func(c *explore.Ctx) {
+			f, _ := FontFromChoices(gen.FontOpts{NoMeta: true, NoLayout: true}, gen.KindGlyf, 1, 0, 0, 0)
+			gi := c.Choose(len(c10Graphs), "component graph")
+			nn := c.Choose(c10N, "names")
+			ol := &glyf.Outlines{Maxp: &maxp.TTFInfo{MaxZones: 2, MaxComponentElements: 2, MaxComponentDepth: 4}}
+			for i := 0; i < c10N; i++ {
+				var g *glyf.Glyph
+				if comps, ok := c10Graphs[gi][i]; ok {
+					var ids []glyph.ID
+					for _, k := range comps {
+						ids = append(ids, glyph.ID(k))
+					}
+					g = gen.CompositeGlyf(funit.Rect16{URx: funit.Int16(100 + i), URy: 700}, ids...)
+				} else if i != 2 {
+					g = gen.SimpleGlyf([][]gen.Pt{{{int16(i), 0, true}, {500, int16(10 * i), true}, {250, 700, true}}}, nil)
+				}
+				ol.Glyphs = append(ol.Glyphs, g)
+				ol.Widths = append(ol.Widths, funit.Int16(500+i))
+			}
+			for i := 0; i < nn; i++ {
+				ol.Names = append(ol.Names, []string{".notdef", "A", "B", "f", "i", "fi"}[i])
+			}
+			f.Outlines = ol
+			f.Gsub, f.Gpos, f.Gdef = nil, nil, nil
+			list := []glyph.ID{0}
+			used := map[glyph.ID]bool{0: true}
+			n := c.Choose(4, "further glyphs")
+			for i := 0; i < n; i++ {
+				var avail []glyph.ID
+				for g := glyph.ID(1); g < c10N; g++ {
+					if !used[g] {
+						avail = append(avail, g)
+					}
+				}
+				g := avail[c.Choose(len(avail), "glyph")]
+				used[g] = true
+				list = append(list, g)
+			}
+			desc := fmt.Sprintf("graph %d, %d names, list %v", gi, nn, list)
+			c.Sample(func() any { return desc })
+			c.Outcome(desc)
+			c.Nontrivial()
+			listCopy := append([]glyph.ID{}, list...)
+			var sub *sfnt.Font
+			if p := guard(func() { sub = f.Subset(list) }); p != "" {
+				c.Fail("C10.panic", "short names: "+explore.PanicSignature(p), "Subset panics: %s; %s", p, desc)
+				return
+			}
+			for i, og := range listCopy {
+				if sub.GlyphName(glyph.ID(i)) != f.GlyphName(og) || sub.GlyphWidth(glyph.ID(i)) != f.GlyphWidth(og) {
+					c.Fail("C10.name", "short names", "glyph %d (original %d): name %q width %v, originally %q width %v; %s", i, og, sub.GlyphName(glyph.ID(i)), sub.GlyphWidth(glyph.ID(i)), f.GlyphName(og), f.GlyphWidth(og), desc)
+					return
+				}
+			}
+			buf := &bytes.Buffer{}
+			if _, err := sub.Write(buf); err != nil {
+				c.Fail("C10.write", "short names", "the subset cannot be written: %v; %s", err, desc)
+				return
+			}
+			back, err := sfnt.Read(bytes.NewReader(buf.Bytes()))
+			if err != nil || back.NumGlyphs() != sub.NumGlyphs() {
+				c.Fail("C10.reread", "short names", "the written subset cannot be read back with %d glyphs: %v; %s", sub.NumGlyphs(), err, desc)
+			}
+		})
+}
+
 func init() {
 	Register("C10", func(r *run.Run) {
 		r.Rule = "bounded exhaustive enumeration of 6-glyph fonts x all duplicate-free glyph lists; oracle through the index map (unique advance widths identify original glyphs); closure = least fixed point of composite components and substitution outputs, computed independently; semantic preservation of rules via the reference shaper on all sequences of <= 3 retained glyphs (listed and appended)"
 		r.Assume = []string{"only layout data the subsetter declares supported: GSUB 1.1 / 4.1, GPOS 2.1, no GDEF", "characters mapping to glyphs that were appended by the closure may or may not be mapped"}
 		c10SubsetSizes(r)
 		c10OutlinesSubset(r)
+		c10ShortNames(r)
 		c10Subset(r)
 		c10Repeat(r)
 		c10MapOrder(r)
